@@ -245,6 +245,14 @@ class Rig:
             self.init_time = time.time() - main.elapsed_time()
         self.sock = None
         self.extra = {}          # port -> interface
+        self._ports = {}         # id(interface) -> port its socket is bound to
+        # the port datagrams for the library really arrive on: what the kernel
+        # says the socket of the main interface is bound to - NOT what the
+        # library keeps in its own bookkeeping (itf.port, NetAddr.lang_port()),
+        # which is the value under test (it is handed to responders as
+        # recv_port and compared with their recv_port filter)
+        self.port = self.true_port(self.itf)
+        self.port_book = self.itf.port
         self.lock_owned = 0
         self.lock_not_owned = 0
 
@@ -349,9 +357,19 @@ class Rig:
         return None
 
     def interface(self, port):
-        if port is None or port == self.itf.port:
+        if port is None or port == self.port:
             return self.itf
         return self.extra[port]
+
+    def true_port(self, itf):
+        """Local port of the interface's socket according to the kernel
+        (remembered: a closed socket cannot be asked any more)."""
+        try:
+            p = itf.socket.getsockname()[1]
+            self._ports[id(itf)] = (itf, p)
+            return p
+        except OSError:
+            return self._ports[id(itf)][1]
 
     # ---- contended ports (a port another program holds) -------------------
     def block_port(self):
@@ -421,7 +439,7 @@ class Rig:
             self.mon.arm(len(d))
         if udp:
             # same socket as the datagram under test: one socket is FIFO
-            self.sock.sendto(d, ('127.0.0.1', itf.port))
+            self.sock.sendto(d, ('127.0.0.1', self.true_port(itf)))
         else:
             self.itf._handle_request(d, ('127.0.0.1', 9))
         return self.canary_ev.wait(timeout)
@@ -436,7 +454,7 @@ class Rig:
         r.sender = tuple(sender)
         r.escaped = None
         itf = self.interface(port)
-        r.recv_port = itf.port
+        r.recv_port = self.true_port(itf)     # where it really arrives
         self.mon.arm(len(d) + (64 if udp else 0))
         r.steps = 0
         r.send_error = None
@@ -444,7 +462,7 @@ class Rig:
         r.t0 = self.main.elapsed_time()
         if udp:
             try:
-                self.sock.sendto(d, ('127.0.0.1', itf.port))
+                self.sock.sendto(d, ('127.0.0.1', r.recv_port))
             except OSError as e:           # e.g. larger than a UDP datagram
                 r.send_error = str(e)
         else:
